@@ -403,8 +403,8 @@ def new_ivector(v_lst):
     NewIVector: Allocate in memory a libscientific int vector from a list
     """
     size = len(v_lst)
-    ivect = ctypes.POINTER(DVECTOR)()
-    lsci.NewUIDVector(ctypes.pointer(ivect), size)
+    ivect = ctypes.POINTER(IVECTOR)()
+    lsci.NewIVector(ctypes.pointer(ivect), size)
 
     for i in range(size):
         val = None
